@@ -21,6 +21,8 @@ Switches, one per branch / shortcut visible in the code under test
                                                         R_override_array
     name(...) / default name + counter                  base region is unnamed, R_unnamed_second, R_two_regions
     declarations from `v.type.shape`                    R_shape_var_unused, R_lower_bound, R_array_2d, R_allocatable
+    `allocatable=None` on generated dummies             R_alloc_written_only, R_alloc_written_read_inside (INTENT(OUT) + ALLOCATABLE
+                                                        would deallocate on entry; module level only)
     loop variable inside the region                     R_v_* (index dead after), R_loop_index_read_after
     region nested in other constructs                   R_in_loop, R_in_branch, R_cond_write, R_while_inside
     calls inside the region                             R_call_module_proc (enriched, intents known),
@@ -157,7 +159,7 @@ DECLS = '''    integer, intent(in) :: n
     type(tt) :: tl
     integer, parameter :: lp = 2
     real(kind=rk) :: xk
-    real, allocatable :: al(:)
+    real, allocatable :: al(:), al2(:), al3(:)
     ko = 0
 '''
 
@@ -277,6 +279,13 @@ RBLOCKS.update({
     'R_allocatable': [('s', '    allocate(al(n))\n    al(:) = 0.5\n'),
                       ('r', '', '', '    do i = 1, n\n      al(i) = al(i) + b(i)\n    end do\n', ['al']),
                       ('s', '    r = r + al(n)\n    deallocate(al)\n')],
+    'R_alloc_written_only': [('s', '    allocate(al2(n))\n    al2(:) = 0.25\n'),
+                             ('r', '', '', '    do i = 1, n - 1\n      al2(i) = b(i) * 2.0\n    end do\n', ['al2']),
+                             ('s', '    r = r + al2(1) + al2(n)\n    deallocate(al2)\n')],
+    'R_alloc_written_read_inside': [('s', '    allocate(al3(n))\n    al3(:) = 0.25\n'),
+                                    ('r', '', '', '    do i = 1, n\n      al3(i) = b(i) + 0.5\n    end do\n'
+                                                  '    do i = 1, n\n      a(i) = a(i) + al3(i)\n    end do\n', ['al3']),
+                                    ('s', '    r = r + al3(2)\n    deallocate(al3)\n')],
     'R_in_associate': [('s', '    associate (c => t%s%v)\n'), ('r', '', '', '      c(1) = c(2) + 1.0\n', []),
                        ('s', '    end associate\n')],
     'R_integer_scalar': [('r', '', '', '    k = n + 1\n    ko = n * 2\n', ['k']), ('s', '    ko = ko + k\n')],
@@ -338,6 +347,9 @@ IBLOCKS = {
 }
 
 MSWITCHES = ['M_sibling_without_contains', 'M_import_at_module_level']     # module level only
+# allocatable written-only in the region: the dummy's attributes matter only with an explicit interface (at file level
+# every allocatable already fails like R_allocatable: assumed-shape dummy of an external routine)
+RMODULE_ONLY = {'R_alloc_written_only', 'R_alloc_written_read_inside'}
 
 
 # ----------------------------------------------------------------------------------------------- assembly
@@ -391,7 +403,7 @@ def make_cases(d):
     cases = []
     for fam, variants in XFORMS.items():
         for level in ('module', 'file'):
-            names = [k for k in menus[fam] if level == 'module' or not (k in MSWITCHES or IBLOCKS.get(k, {}).get('module_only'))]
+            names = [k for k in menus[fam] if level == 'module' or not (k in MSWITCHES or k in RMODULE_ONLY or IBLOCKS.get(k, {}).get('module_only'))]
             for dev in deviations({k: [True] for k in names}, d):
                 switches = [k for k in names if k in dev]
                 if fam == 'both' and len(switches) > 1 and not (any(k[0] == 'R' for k in switches) and any(k[0] == 'I' for k in switches)):
